@@ -4,9 +4,11 @@ import LaytheVerif.Model.LayRef.Ops
 # The call protocol of the VM for Laythe functions (`vm/ops.rs`, `fiber/mod.rs`)
 
 `callClosure` = `Vm::call_closure`/`Vm::call`: `check_arity` (`Fun::check_if_valid_call`, fixed arity), the frame limit
-(`frames().len() == MAX_FRAME_SIZE`), `push_frame` (`stack_start = stack_top - (arg_count + 1)`: the callee slot and the
+(`frames().len() >= MAX_FRAME_SIZE`, `Gen.frameLimitGuards`), `push_frame` (`stack_start = stack_top - (arg_count + 1)`: the callee slot and the
 arguments become slots 0..n of the new frame; the caller's `ip` stays in the caller's frame).
 `opReturn` = `Vm::op_return`: pop the result, `pop_frame` (`stack_top = frame.stack_start`, drop the frame), push the result.
+`pushNativeStub` = the arm `NativeEnvironment::Normal` of `Vm::call_native` after the signature check: the same frame
+limit test, then `push_frame(stub, capture_stub, arg_count)` — the stub frame of a stack-using native counts like any other.
 The stack is a list, bottom first; frames are listed innermost first.
 -/
 namespace LaytheVerif.CallProtocol
@@ -30,8 +32,14 @@ def arityError (name : String) (arity m : Nat) : OpErr :=
 /-- `Call m` on a closure/function `fn` (named `name`, fixed arity `arity`) that sits under `m` arguments -/
 def callClosure (fn : Nat) (name : String) (arity m : Nat) (fb : Fiber) : Except OpErr Fiber :=
   if m ≠ arity then .error (arityError name arity m)
-  else if fb.frames.length = Gen.MAX_FRAME_SIZE then .error ("RuntimeError", "Stack overflow.")
+  else if fb.frames.length ≥ Gen.MAX_FRAME_SIZE then .error ("RuntimeError", "Stack overflow.")
   else .ok { fb with frames := ⟨fn, fb.stack.length - (m + 1), 0⟩ :: fb.frames }
+
+/-- `call_native`, `NativeEnvironment::Normal`, signature accepted: the stub function `stub` gets a frame over the callee
+    slot and the `m` arguments, unless the fiber is at the frame limit -/
+def pushNativeStub (stub : Nat) (m : Nat) (fb : Fiber) : Except OpErr Fiber :=
+  if fb.frames.length ≥ Gen.MAX_FRAME_SIZE then .error ("RuntimeError", "Stack overflow.")
+  else .ok { fb with frames := ⟨stub, fb.stack.length - (m + 1), 0⟩ :: fb.frames }
 
 /-- `Return` in a frame that has a caller -/
 def opReturn (fb : Fiber) : Option Fiber :=
